@@ -28,14 +28,18 @@ def main():
     checks = sys.argv[4:] or ['C%02d' % i for i in range(1, 21)]
     out = os.path.join(VERIF, 'seeded', sid)
     os.makedirs(out, exist_ok=True)
-    patch = sh('git -C %s diff -- python' % wt).stdout
-    if not patch.strip():
-        print('no diff in', wt)
-        return 1
-    open(os.path.join(out, 'patch.diff'), 'wb').write(patch)
-    for f in ('demo.py', 'NOTES.md'):
-        if os.path.exists(os.path.join(wt, f)):
-            shutil.copy(os.path.join(wt, f), os.path.join(out, f))
+    old = {}
+    if wt == '-':          # re-run checks for an already recorded change
+        old = json.load(open(os.path.join(out, 'meta.json'))).get('checks', {})
+    else:
+        patch = sh('git -C %s diff -- python' % wt).stdout
+        if not patch.strip():
+            print('no diff in', wt)
+            return 1
+        open(os.path.join(out, 'patch.diff'), 'wb').write(patch)
+        for f in ('demo.py', 'NOTES.md'):
+            if os.path.exists(os.path.join(wt, f)):
+                shutil.copy(os.path.join(wt, f), os.path.join(out, f))
     scratch = '/tmp/ver/%s' % sid
     sh('git -C /repo worktree remove --force %s' % scratch)
     os.makedirs('/tmp/ver', exist_ok=True)
@@ -56,7 +60,7 @@ def main():
         meta['confirmed'] = (r0.returncode == 0 and r1.returncode != 0 and ' passed' in meta['suite_with_change']
                              and 'failed' not in meta['suite_with_change'])
         print(sid, 'confirmed' if meta['confirmed'] else 'NOT CONFIRMED', meta['suite_with_change'], r0.returncode, r1.returncode)
-        res = {}
+        res = dict(old)
         outdir = '/tmp/ver/out-%s' % sid
         os.makedirs(outdir, exist_ok=True)
         for c in checks:
